@@ -35,21 +35,38 @@ template <class C> void compareCounts(const C& got, const ExpCounts& e, long mul
     res.ev("counter-values-checked", 7);
 }
 
-// merge per-worker counters as documented, in every permutation (<= 6 workers) or a few random ones
+// merge per-worker counters in many shapes: the documented left fold from an empty accumulator (every permutation for <= 5 workers),
+// the same with the accumulator as the second argument, folds that start from a worker's own data, and random binary merge trees
 template <class Algo, class KernelClass> void mergeAndCheck(const Algo& algo, const ExpCounts& e, long mult, vh::Rng& r, Result& res, const std::string& tag, const std::string& ctx) {
-    std::vector<typename KernelClass::ReduceType> parts;
+    using RT = typename KernelClass::ReduceType;
+    std::vector<RT> parts;
     algo.applyToAllKernels([&](const auto& k) { parts.push_back(k.getReduceData()); });
     std::vector<size_t> perm(parts.size()); for (size_t i = 0; i < perm.size(); ++i) perm[i] = i;
     long nperm = 0;
+    const std::string w = " workers=" + vh::str(parts.size());
     auto doMerge = [&]() {
-        auto c = typename KernelClass::ReduceType();
-        for (size_t i : perm) c = KernelClass::ReduceType::Reduce(c, parts[i]);
-        compareCounts(c, e, mult, res, tag, ctx + " workers=" + vh::str(parts.size()));
-        ++nperm;
+        { auto c = RT(); for (size_t i : perm) c = RT::Reduce(c, parts[i]); compareCounts(c, e, mult, res, tag, ctx + " merge=left-fold" + w); }
+        { auto c = RT(); for (size_t i : perm) c = RT::Reduce(parts[i], c); compareCounts(c, e, mult, res, tag, ctx + " merge=fold-with-accumulator-second" + w); }
+        if (!perm.empty()) { auto c = parts[perm[0]]; for (size_t q = 1; q < perm.size(); ++q) c = RT::Reduce(c, parts[perm[q]]); compareCounts(c, e, mult, res, tag, ctx + " merge=fold-from-first-worker" + w); }
+        if (!perm.empty()) {   // random binary tree
+            std::vector<RT> pool; for (size_t i : perm) pool.push_back(parts[i]);
+            while (pool.size() > 1) { const size_t a = r.below(pool.size()); RT x = pool[a]; pool.erase(pool.begin() + long(a)); const size_t b = r.below(pool.size()); pool[b] = r.coin() ? RT::Reduce(x, pool[b]) : RT::Reduce(pool[b], x); }
+            compareCounts(pool[0], e, mult, res, tag, ctx + " merge=random-tree" + w);
+        }
+        nperm += 4;
     };
-    if (parts.size() <= 5) { do { doMerge(); } while (std::next_permutation(perm.begin(), perm.end())); }
+    if (parts.size() <= 4) { do { doMerge(); } while (std::next_permutation(perm.begin(), perm.end())); }
     else for (int t = 0; t < 6; ++t) { for (size_t i = perm.size(); i > 1; --i) std::swap(perm[i - 1], perm[r.below(i)]); doMerge(); }
     res.ev("merge-orders", nperm); res.ev("worker-copies-merged", (long long)parts.size());
+}
+
+// counts expected after executing only the operators of a flag set (multiples of the full-run counts per operator)
+inline ExpCounts maskCounts(const ExpCounts& e, int flags) {
+    using namespace TbfAlgorithmUtils;
+    ExpCounts m;
+    if (flags & TbfP2M) m.P2M = e.P2M; if (flags & TbfM2M) m.M2M = e.M2M; if (flags & TbfM2L) m.M2L = e.M2L; if (flags & TbfL2L) m.L2L = e.L2L;
+    if (flags & TbfL2P) m.L2P = e.L2P; if (flags & TbfP2P) { m.P2P = e.P2P; m.P2PInner = e.P2PInner; }
+    return m;
 }
 
 template <class E> Segment c18SeqSegment(long nQ, long nT) {
@@ -78,6 +95,18 @@ template <class E> Segment c18SeqSegment(long nQ, long nT) {
             mergeAndCheck<decltype(*algo), K>(*algo, e, 1, r, res, "c18", "after one execute");
             algo->execute(*pr.tree);
             mergeAndCheck<decltype(*algo), K>(*algo, e, 2, r, res, "c18", "after two executes (cumulative)");
+            // partial operator sets: a fresh executor running only some stages reports exactly those operators
+            {
+                using namespace TbfAlgorithmUtils;
+                const int sets[] = {TbfP2M | TbfM2M, TbfP2M | TbfM2M | TbfM2L, TbfP2P, TbfBottomToTopStages | TbfTransferStages, int(1 + r.below(63))};
+                for (int fl : sets) {
+                    PolyRun<E, K> p2; p2.build(c);
+                    auto a2 = std::make_unique<TbfAlgorithm<Real, K, typename E::Space>>(*p2.cfg, c.upper);
+                    a2->execute(*p2.tree, fl);
+                    mergeAndCheck<decltype(*a2), K>(*a2, maskCounts(e, fl), 1, r, res, "c18", "operators=" + vh::str(fl));
+                    res.ev("partial-operator-runs");
+                }
+            }
         } else if (kk % 3 == 1) {
             using K = TbfInteractionCounter<TbfTestKernel<Real, typename E::Space>>;
             using Cell = std::array<long, 1>;
